@@ -700,7 +700,7 @@ class Exec:
         if isinstance(v, Closure):
             return L.FunV(v.fid)
         if isinstance(v, BoundMethod):
-            return L.OpaqueV(L.OK['boundmethod'], self.fresh_int('bm'))
+            return self.engine.model.bound_value(self, v)
         if isinstance(v, tuple):
             return L.TupleV(self.new_list_from([self.to_val(x) for x in v], 'tuple'))
         raise Unsupported('cannot convert %r to a value' % (v,))
